@@ -109,6 +109,9 @@ def run(chk: framework.Check):
     known_finding_probes(chk, drv)
     chk.extra["rule"] = ("random worlds (attrs/dataclass/TypedDict, frozen/slots, defaults/factories, init=False, kw_only, private names) x types "
                          "to depth 3 x conforming values x 8 configurations + 4 cross pairs; non-trivial = non-leaf type; distinct by canonical text")
+    # implementation-only extended stream (unions, NamedTuples, registry hooks, one-shot iterables)
+    from harness import ext
+    ext.run_c01(chk, 150 if chk.tier == "quick" else 1500)
     drv.close()
 
 
